@@ -1133,7 +1133,16 @@ VmTrap vm_core_execute(VmState *vm) {
                 vm_release(&vm->heap, arr);
                 return trap_error(vm, VM_ERR_TYPE_ERROR, "ARR_GET: not an array");
             }
-            uint32_t idx = (uint32_t)(idx_v.tag == TAG_INT ? idx_v.as.i64 : 0);
+            int64_t idx64 = (idx_v.tag == TAG_INT ? idx_v.as.i64 : 0);
+            if (idx64 < 0 || idx64 >= (int64_t)arr.as.array->length) {
+                /* checked on the 64-bit value: a cast to uint32_t would wrap 2^32+k into range */
+                uint32_t alen = arr.as.array->length;
+                vm_release(&vm->heap, arr);
+                return trap_error(vm, VM_ERR_OUT_OF_BOUNDS,
+                                  "Index out of bounds: index %lld, array length %u",
+                                  (long long)idx64, alen);
+            }
+            uint32_t idx = (uint32_t)idx64;
             NanoValue v = vm_array_get(arr.as.array, idx);
             vm_retain(v);
             vm_release(&vm->heap, arr);
@@ -1150,7 +1159,16 @@ VmTrap vm_core_execute(VmState *vm) {
                 vm_release(&vm->heap, v);
                 return trap_error(vm, VM_ERR_TYPE_ERROR, "ARR_SET: not an array");
             }
-            uint32_t idx = (uint32_t)(idx_v.tag == TAG_INT ? idx_v.as.i64 : 0);
+            int64_t idx64 = (idx_v.tag == TAG_INT ? idx_v.as.i64 : 0);
+            if (idx64 < 0 || idx64 >= (int64_t)arr.as.array->length) {
+                uint32_t alen = arr.as.array->length;
+                vm_release(&vm->heap, arr);
+                vm_release(&vm->heap, v);
+                return trap_error(vm, VM_ERR_OUT_OF_BOUNDS,
+                                  "Index out of bounds: index %lld, array length %u",
+                                  (long long)idx64, alen);
+            }
+            uint32_t idx = (uint32_t)idx64;
             vm_release(&vm->heap, vm_array_get(arr.as.array, idx));
             vm_array_set(arr.as.array, idx, v);
             stack_push(vm, arr);
